@@ -299,9 +299,11 @@ pub fn crash_point_partial_write<S: serde::Serialize>(
 pub static WATCH_TAP_ARMED: std::sync::atomic::AtomicBool =
     std::sync::atomic::AtomicBool::new(false);
 
-pub fn watch_tap() -> &'static std::sync::Mutex<Vec<(String, std::path::PathBuf)>> {
-    static TAP: std::sync::OnceLock<std::sync::Mutex<Vec<(String, std::path::PathBuf)>>> =
-        std::sync::OnceLock::new();
+/// (target id, path, id of the notify thread that reported it): one thread per watcher.
+pub type TapEntry = (String, std::path::PathBuf, std::thread::ThreadId);
+
+pub fn watch_tap() -> &'static std::sync::Mutex<Vec<TapEntry>> {
+    static TAP: std::sync::OnceLock<std::sync::Mutex<Vec<TapEntry>>> = std::sync::OnceLock::new();
     TAP.get_or_init(|| std::sync::Mutex::new(Vec::new()))
 }
 
@@ -310,7 +312,7 @@ pub fn watch_event_seen(target_id: &TargetId, result: &notify::Result<notify::Ev
         if let Ok(ev) = result {
             let mut tap = watch_tap().lock().unwrap_or_else(|e| e.into_inner());
             for p in &ev.paths {
-                tap.push((target_id.to_string(), p.clone()));
+                tap.push((target_id.to_string(), p.clone(), std::thread::current().id()));
             }
         }
     }
